@@ -87,6 +87,7 @@ def run(ctx):
     # a selection handed to a recipe step addresses the same wells when the step is carried out
     from .c07 import addressed_selection
     addressed_selection(ctx, 'C13.R3', only=('remove', 'transfer'))
+    default_row_labels(ctx, 'C13.R4')
     # ---- list order in get(): the stored slices are visited in order
     g = slicer.methods['get']
     bad = None
@@ -478,3 +479,62 @@ def distinct_wells(ctx, rule):
     ctx.ob(rule, pi, stmt.lineno, 'every well of a new plate is its own Container (constructed once per element)', bool(verdict),
            fact=fact, why='all wells are one object: whatever is added to one well appears in every well, also after '
            'deepcopy', key='wells alias one container')
+
+
+def default_row_labels(ctx, rule):
+    """Default row labels are bijective base 26 written most significant letter first ('AA' follows 'Z', 'AB' follows
+    'AA').  The loop that repeatedly divides the row number by 26 produces the letters least significant first: appended
+    letters have to be reversed once before they are joined, prepended letters must not be reversed."""
+    model = ctx.model
+    pi = model.func('Plate.__init__')
+    loops = []
+    for lp in ast.walk(pi.node):
+        if isinstance(lp, (ast.While, ast.For)):
+            src = unparse(lp, 2000)
+            if '26' in src and ('//' in src or 'divmod' in src) and 'chr(' in src:
+                loops.append(lp)
+    if not loops:
+        raise AnalysisError('Plate.__init__: the loop producing default row labels was not found')
+    lp = loops[-1]      # innermost-last in walk order is fine: there is one such loop
+    acc, order = None, None
+    for st in ast.walk(lp):
+        if isinstance(st, ast.Call) and isinstance(st.func, ast.Attribute) and isinstance(st.func.value, ast.Name):
+            if st.func.attr == 'append' and any('chr(' in unparse(a) for a in st.args):
+                acc, order = st.func.value.id, 'lsd'
+            if st.func.attr == 'insert' and st.args and unparse(st.args[0]) == '0' and 'chr(' in unparse(st.args[1]):
+                acc, order = st.func.value.id, 'msd'
+        if isinstance(st, ast.AugAssign) and isinstance(st.op, ast.Add) and isinstance(st.target, ast.Name) and 'chr(' in unparse(st.value):
+            acc, order = st.target.id, 'lsd'
+        if isinstance(st, ast.Assign) and len(st.targets) == 1 and isinstance(st.targets[0], ast.Name) and \
+                isinstance(st.value, ast.BinOp) and isinstance(st.value.op, ast.Add):
+            t = st.targets[0].id
+            l_, r_ = unparse(st.value.left), unparse(st.value.right)
+            if l_ == t and 'chr(' in r_:
+                acc, order = t, 'lsd'
+            elif r_ == t and 'chr(' in l_:
+                acc, order = t, 'msd'
+    if acc is None:
+        raise AnalysisError('Plate.__init__: accumulation of the row label letters not understood')
+    # reversals applied to the accumulated letters where they become the label (the statements after the division loop
+    # in the enclosing loop body)
+    reversals = 0
+    parent = getattr(lp, 'parent', None)
+    scope = parent if parent is not None else pi.node
+    for x in ast.walk(scope):
+        if any(y is x for y in ast.walk(lp)):
+            continue
+        if isinstance(x, ast.Call) and isinstance(x.func, ast.Name) and x.func.id == 'reversed' and \
+                any(isinstance(a, ast.Name) and a.id == acc for a in x.args):
+            reversals += 1
+        if isinstance(x, ast.Call) and isinstance(x.func, ast.Attribute) and x.func.attr == 'reverse' and \
+                isinstance(x.func.value, ast.Name) and x.func.value.id == acc:
+            reversals += 1
+        if isinstance(x, ast.Subscript) and isinstance(x.value, ast.Name) and x.value.id == acc and \
+                isinstance(x.slice, ast.Slice) and x.slice.step is not None and unparse(x.slice.step) == '-1':
+            reversals += 1
+    ok = (order == 'lsd' and reversals % 2 == 1) or (order == 'msd' and reversals % 2 == 0)
+    ctx.ob(rule, pi, lp.lineno, "default row labels are written most significant letter first ('AA', 'AB', ...)", ok,
+           fact=f"letters are {'appended (least significant first)' if order == 'lsd' else 'prepended'} to `{acc}`, "
+                f"{reversals} reversal(s) before the label is stored",
+           why="labels beyond 'Z' come out reversed ('BA' instead of 'AB'): row 28 is addressed by the wrong label",
+           key='row label letter order')
